@@ -168,6 +168,11 @@ func hostileChild(args []string) error {
 	if s.Feeder == "sumdb" {
 		p.Origins["l1"] = "go.sum database tree"
 	}
+	shards := 1
+	if s.Feeder == "rekor-shards" {
+		s.Feeder, shards = "rekor", 3
+		p.Logs = []string{"l1", "l2", "l3"}
+	}
 	w := world.New(p)
 	l := w.Logs["l1"]
 	st, _ := newStore("inmem", "")
@@ -271,7 +276,27 @@ func hostileChild(args []string) error {
 	}
 	feed := map[string]func(context.Context, config.Log, feeder.Witness, *http.Client, time.Duration) error{
 		"sumdb": sumdb.FeedLog, "tiles": tiles.FeedLog, "serverless": serverless.FeedLog, "pixel": pixelbt.FeedLog, "rekor": rekor.FeedLog}[s.Feeder]
-	ferr := feed(ctx, lc, witnessAdapterOf(wit), &http.Client{Timeout: 2 * time.Second}, 0)
+	var ferr error
+	if shards == 1 {
+		ferr = feed(ctx, lc, witnessAdapterOf(wit), &http.Client{Timeout: 2 * time.Second}, 0)
+	} else {
+		// the shards of one instance: same host, one tree ID each, cycles overlapping; every one of them has to come back
+		client := &http.Client{Timeout: 2 * time.Second}
+		errs := make(chan error, shards)
+		for i := 0; i < shards; i++ {
+			li := w.Logs[p.Logs[i]]
+			lci, err := config.NewLog(li.Origin, li.Key.VKey(), fmt.Sprintf("%s/?treeID=%d", srv.URL, 1234+i))
+			if err != nil {
+				return err
+			}
+			go func() { errs <- feed(ctx, lci, witnessAdapterOf(wit), client, 0) }()
+		}
+		for i := 0; i < shards; i++ {
+			if e := <-errs; e != nil {
+				ferr = e
+			}
+		}
+	}
 	if ferr == nil {
 		say("OUTCOME result")
 	} else {
